@@ -21,14 +21,16 @@ OK(c) == /\ (c.kind = "push" => c.method # "fail" /\ c.replymeta = "none" /\ c.f
          /\ (c.body = "nil" => c.replymeta = "none")
          \* "writefail": the proxy's write of the forwarded message fails (reset / broken pipe) while the connection still looks healthy
 Expect(c) == IF c.failure # "none" THEN "badgateway" ELSE "same"
+\* 200 proxied calls made by 8 goroutines at the same time, each with reply metadata of its own: every caller gets its own
+Conc == {[kind |-> "call", method |-> "echo", codec |-> cd, reqmeta |-> "one", replymeta |-> "one", body |-> "short", failure |-> "none", conc |-> TRUE] : cd \in {"j", "p"}}
 VARIABLES c, done
 vars == <<c, done>>
-Init == c \in {x \in Cases : OK(x)} /\ done = FALSE
+Init == c \in {[x EXCEPT !.kind = x.kind] @@ [conc |-> FALSE] : x \in {y \in Cases : OK(y)}} \cup Conc /\ done = FALSE
 Run == ~done /\ done' = TRUE /\ UNCHANGED c
 Spec == Init /\ [][Run]_vars
 OracleSane == (Expect(c) = "badgateway") <=> (c.failure # "none")
 Emit == Export = "" \/
   Serialize(ToJson([kind |-> c.kind, method |-> c.method, codec |-> c.codec, reqmeta |-> c.reqmeta, replymeta |-> c.replymeta,
-                    body |-> c.body, failure |-> c.failure, expect |-> Expect(c)]) \o "\n", Export,
+                    body |-> c.body, failure |-> c.failure, conc |-> c.conc, expect |-> Expect(c)]) \o "\n", Export,
             [format |-> "TXT", charset |-> "UTF-8", openOptions |-> <<"WRITE", "CREATE", "APPEND">>]).exitValue = 0
 =============================================================================
